@@ -34,6 +34,23 @@ CellSeq(edges) == IF Len(edges) = 1 THEN [i \in 1..NCells(edges[1]) |-> <<i>>]
                           <<((n - 1) \div NCells(edges[2])) + 1, ((n - 1) % NCells(edges[2])) + 1>>]
 CellEdges(idx, edges) == [d \in 1..Len(edges) |-> <<edges[d][idx[d]], edges[d][idx[d] + 1]>>]
 
+(***************************************************************************)
+(* How the user writes the edges: nested Python sequences, each level a    *)
+(* list or a tuple.  form: "l" lists at every level, "t" tuples at every   *)
+(* level, "lt" a list of tuples, "tl" a tuple of lists (the last two only  *)
+(* for more than one dimension).  One-dimensional edges are written flat.  *)
+(* The dimension is the nesting depth - whatever the container types.      *)
+(***************************************************************************)
+Forms(dim) == IF dim = 1 THEN {"l", "t"} ELSE {"l", "t", "lt", "tl"}
+OuterC(form) == IF form \in {"l", "lt"} THEN "list" ELSE "tuple"
+InnerC(form) == IF form \in {"l", "tl"} THEN "list" ELSE "tuple"
+Axis(c, e) == [c |-> c, leaf |-> TRUE, xs |-> e]
+EdgesWritten(edges, form) == IF Len(edges) = 1 THEN Axis(OuterC(form), edges[1])
+                        ELSE [c |-> OuterC(form), leaf |-> FALSE, xs |-> [d \in 1..Len(edges) |-> Axis(InnerC(form), edges[d])]]
+\* what SplitIntoBins (init_bins, get_bin_on_value, histogram, iter_bins_with_edges) must read from it
+DimWritten(w) == IF w.leaf THEN 1 ELSE Len(w.xs)
+AxesWritten(w) == IF w.leaf THEN <<w.xs>> ELSE [d \in 1..Len(w.xs) |-> w.xs[d].xs]
+
 \* positions of the values of flow[1..n] whose argument falls into cell idx, in arrival order
 RECURSIVE SubFlowUpTo(_, _, _, _)
 SubFlowUpTo(flow, edges, idx, n) ==
